@@ -7,6 +7,7 @@
 // body never touches (it only hands each element to `param`).  Weights, ModelParameter::mul and
 // ModelParameter::mul_add_assign are the real ones.  Labelled bounded (2 and 3 voices).
 //@harness name=weighted_body_pairs_in_order tier=quick label=bounded(2-voices,vector=1,concrete-values) props=C10 timeout=900
+//@harness name=weighted_body_unit_weight_is_no_vertex tier=quick label=bounded(3-voices,vector=1,concrete-values) props=C10 timeout=900
 //@harness name=weighted_body_three_voices tier=thorough label=bounded(3-voices,vector=1,concrete-values) props=C10 timeout=1800
 use super::*;
 use crate::model::MeanVari;
@@ -61,6 +62,29 @@ fn weighted_body_three_voices() {
     let w2 = Weights::new(&[0.0, 0.0, 1.0]).unwrap();
     let r2 = vs.weighted(&w2, sel);
     assert!(r2.parameters[0].0 == 100.0 && r2.parameters[0].1 == 4.0 && r2.msd == Some(0.25));
+    kani::cover!(true);
+    std::mem::forget(vs);
+}
+
+/// a weight of exactly 1 (or 0) does not make the vector a vertex: with three voices and weights (1, .5, -.5),
+/// (.5, 1, -.5) and (0, 2, -1) - all summing to 1 - every voice still contributes with its own weight
+#[kani::proof]
+#[kani::unwind(5)]
+fn weighted_body_unit_weight_is_no_vertex() {
+    let vs = ShimSet(vec![par(1.0, 1.0, 1.0), par(10.0, 2.0, 0.5), par(100.0, 4.0, 0.25)]);
+    let w = Weights::new(&[1.0, 0.5, -0.5]).unwrap();
+    let r = vs.weighted(&w, sel);
+    assert!(r.parameters.len() == 1);
+    assert!(r.parameters[0].0 == 1.0 + 5.0 - 50.0 && r.parameters[0].1 == 1.0 + 1.0 - 2.0);
+    assert!(r.msd == Some(1.0 + 0.25 - 0.125));
+    let w2 = Weights::new(&[0.5, 1.0, -0.5]).unwrap();
+    let r2 = vs.weighted(&w2, sel);
+    assert!(r2.parameters[0].0 == 0.5 + 10.0 - 50.0 && r2.parameters[0].1 == 0.5 + 2.0 - 2.0);
+    assert!(r2.msd == Some(0.5 + 0.5 - 0.125));
+    let w3 = Weights::new(&[0.0, 2.0, -1.0]).unwrap();
+    let r3 = vs.weighted(&w3, sel);
+    assert!(r3.parameters[0].0 == 20.0 - 100.0 && r3.parameters[0].1 == 4.0 - 4.0);
+    assert!(r3.msd == Some(1.0 - 0.25));
     kani::cover!(true);
     std::mem::forget(vs);
 }
